@@ -37,6 +37,7 @@ DEFS = [
     ("default names param", "pub struct @<A, B = Vec<A>> { pub a: A, pub b: B }", ["A", ("B", "Vec<A>")], {}),
     ("lifetime", "pub struct @<'a, T: 'static> { pub a: &'a T, pub b: std::borrow::Cow<'a, str> }", ["T"], {"lifetimes": 1}),
     ("const", "pub struct @<T, const N: usize> { pub a: [T; N], pub b: T }", ["T"], {"consts": ["2"]}),
+    ("const with default", "pub struct @<T, const N: usize = 2> { pub a: [T; N], pub b: T }", ["T"], {"consts": ["3"]}),
     ("concrete", '#[ts(concrete(B = i32))] pub struct @<A, B> { pub a: A, pub b: B }', ["A"], {"concrete": {"B": "i32"}}),
     ("concrete with default", '#[ts(concrete(B = i32))] pub struct @<A, B = u8> { pub a: A, pub b: B }', ["A"], {"concrete": {"B": "i32"}}),
     ("all concrete with default", '#[ts(concrete(T = bool))] pub enum @<T = bool> { A(T), B { x: Vec<T> }, C }', [], {"concrete": {"T": "bool"}}),
